@@ -148,6 +148,8 @@ def judge_msg(case):
         try:
             mo = MosFile.from_string(text)
         except Exception as e:
+            if m.kind is None:
+                return []       # no recognised message in the text: nothing to expose (C08's business)
             return [Failure(PROP, f'C20|classify|{type(e).__name__}', f'classification raised {type(e).__name__}')]
         if type(mo).__name__ != m.kind:
             return []           # C08's business
